@@ -6,6 +6,7 @@ package main
 // for the line protocol.
 
 import (
+	"encoding/json"
 	"errors"
 	"fmt"
 	"io"
@@ -42,6 +43,7 @@ func (e retValErr) Error() string { return e.s }
 type (
 	retMyInt    int
 	retMyStr    string
+	retMyBytes  []byte
 	retHiddenIS func() (int, string) // not identical to func() (int, string): invoked reflectively
 	retUserFast func() (int, string) // a user-written FastInvoker
 )
@@ -135,6 +137,20 @@ var retShapes = map[string]retShapeDef{
 	"nis": {[]string{"MI", "MS"}, func(s *retSess) flamego.Handler {
 		return func() (retMyInt, retMyStr) { return retMyInt(s.num(0)), retMyStr(s.str(1)) }
 	}},
+	// byte slices of a DEFINED type (Kind is still Slice of uint8: the table treats them as a body)
+	"nb": {[]string{"MB"}, func(s *retSess) flamego.Handler { return func() retMyBytes { return retMyBytes(s.byt(0)) } }},
+	"raw": {[]string{"MB"}, func(s *retSess) flamego.Handler {
+		return func() json.RawMessage { return json.RawMessage(s.byt(0)) }
+	}},
+	"inb": {[]string{"I", "MB"}, func(s *retSess) flamego.Handler {
+		return func() (int, retMyBytes) { return s.num(0), retMyBytes(s.byt(1)) }
+	}},
+	"nbe": {[]string{"MB", "E"}, func(s *retSess) flamego.Handler {
+		return func() (json.RawMessage, error) { return json.RawMessage(s.byt(0)), s.err(1) }
+	}},
+	"anb": {[]string{"MB"}, func(s *retSess) flamego.Handler {
+		return func() interface{} { return retMyBytes(s.byt(0)) } // the defined type behind an interface{}
+	}},
 	"ce": {[]string{"CE"}, func(s *retSess) flamego.Handler {
 		return func() *retPtrErr { p, _ := s.cur[0].(*retPtrErr); return p }
 	}},
@@ -145,7 +161,7 @@ var retShapes = map[string]retShapeDef{
 
 // first token field each static type must carry (a generator bug shows as bad-op, never silently)
 var retStaticHead = map[string]string{"S": "s", "B": "b", "E": "a", "I": "i", "PS": "p", "PB": "p", "PPS": "p",
-	"A": "a", "O64": "o", "OB": "o", "CE": "e", "MI": "i", "MS": "s"}
+	"A": "a", "O64": "o", "OB": "o", "CE": "e", "MI": "i", "MS": "s", "MB": "b"}
 
 // retToGo builds the dynamic Go value a token describes. `static` types nil pointers and `o`.
 func retToGo(f []string, static string) interface{} {
@@ -449,7 +465,7 @@ func retTok(r *rand.Rand, st string, bad bool) string {
 	switch st {
 	case "S", "MS":
 		return "s:" + hx(retBody(r))
-	case "B":
+	case "B", "MB":
 		switch r.Intn(4) {
 		case 0:
 			return "b:nil"
@@ -520,7 +536,7 @@ func retSmall(st string) []string {
 	switch st {
 	case "S", "MS":
 		return []string{"s:-", "s:" + hx("hi"), "s:" + hx("\xff\x00")}
-	case "B":
+	case "B", "MB":
 		return []string{"b:nil", "b:-", "b:" + hx("by")}
 	case "E":
 		return []string{"a:nil", "a:e:n:" + hx("boom"), "a:e:n:-", "a:e:p:" + hx("pe"), "a:e:v:" + hx("ve"), "a:e:t:" + hx("nil-receiver")}
@@ -544,7 +560,8 @@ func retSmall(st string) []string {
 }
 
 var retShapeOrder = []string{"v", "s", "b", "e", "is", "isr", "isu", "cis", "ib", "ie", "se", "be", "ps", "pb", "pps", "any",
-	"iany", "n", "i64", "bool", "ii", "i64s", "es", "ss", "si", "ise", "ips", "pse", "nis", "ce", "sce"}
+	"iany", "n", "i64", "bool", "ii", "i64s", "es", "ss", "si", "ise", "ips", "pse", "nis", "ce", "sce",
+	"nb", "raw", "inb", "nbe", "anb"}
 
 func genRet(r *rand.Rand, tier string, emit Emit) {
 	// 1. exhaustive small scope: every shape × every position × GET/HEAD × every combination of
@@ -784,7 +801,7 @@ func retQuietTok(r *rand.Rand, st string) string {
 	switch st {
 	case "S", "MS":
 		return "s:-"
-	case "B":
+	case "B", "MB":
 		return []string{"b:nil", "b:-"}[r.Intn(2)]
 	case "E", "A":
 		return "a:nil"
